@@ -386,7 +386,7 @@ func run(c *core.Ctx) {
 			}
 		}
 		if fam == "json" {
-			for _, k := range []string{"fidelity_checked", "object_fidelity_ok", "max_fields_cut_observed", "input_invalid_json"} {
+			for _, k := range []string{"stress_concurrent_decodes", "stress_sequential_docs_cut", "fidelity_checked", "object_fidelity_ok", "max_fields_cut_observed", "input_invalid_json"} {
 				if c.Counter("json."+k) == 0 {
 					c.Fatal("family json: %s never observed", k)
 				}
